@@ -348,6 +348,8 @@ def run_setters(case):
 
     async def main():
         nonlocal inv
+        if case.get("entry") == "connect" and tr == "udp" and fam == "DT":
+            dev.comm_addr = 0x7F   # answers its own address only: discovery has to probe the families one by one
         if case.get("entry") == "connect" and tr == "udp":
             # the object is obtained through goodwe.connect() without a family (discovery), like applications do
             try:
